@@ -22,6 +22,7 @@ var hostile = []string{
 	"\"unterminated", "'x", "/* never closed", "\x00", "\xff\xfe", "\xc3", "{{{{{{{{{{{{{{{{", "}}}}", "[[[[", "<<<<", "= = =", ";;;;",
 	"0x", "1e", "1e+", "0777777777777777777777777", "99999999999999999999999999999", ".", "..", "\\", "\"\\", "\"\\x\"", "\"\\U00110000\"", "\"\\777\"",
 	"option", "message", "extend", "group", "map<", "map<,>", "oneof", "rpc", "returns", "stream", "reserved", "extensions", "to max", "syntax", "edition", "import public weak",
+	"/* a\x00b\n * c\n */ $", "/*\x00\n\n\n*/", "// l\x00m\n$", "/* \x01 \x7f\n\x00\n*/ message",
 	"\"\\\xff\"", "'\\\xfe", "\"\\\xc3", "\r", "\v", "\f", "\u2028", "\ufeff", "\ufffd", "$", "#", "@", "`", "~", "?",
 }
 
@@ -161,7 +162,12 @@ func c12Oracle(text string) (nerrs int, hasDecl bool, err error) {
 				posProblem = perr
 			}
 			return nil
-		}, nil)))
+		}, func(w reporter.ErrorWithPos) {
+			// warnings (e.g. "no syntax specified") carry positions too
+			if perr := checkPos(w); perr != nil && posProblem == nil {
+				posProblem = perr
+			}
+		})))
 	}
 	if posProblem != nil {
 		return count, false, fmt.Errorf("validation: %v", posProblem)
@@ -194,7 +200,7 @@ func c12Check(c srcCase, r *ev.Rec) error {
 
 func TestC12_Mutants(t *testing.T) {
 	ev.Run(t, ev.Spec[srcCase]{ID: "C12", Name: "Mutants", Quick: 4000, Thorough: 150000,
-		Rule: "byte strings obtained from parser-accepted texts (generated, corpus, labelled) by 1-4 mutations: truncation at a random byte, token deletion/duplication/swap/replacement, bit flips, insertion of hostile fragments (unterminated strings and comments, NUL, invalid UTF-8, stray brackets, bad numeric and escape literals, keywords, odd whitespace and symbols), nesting up to 150 deep; plus purely random byte strings; oracle: no panic, non-nil AST, Parse returns an error <=> an error was reported (with an accept-all and with the default fail-fast reporter, which must agree), every reported position has 1 <= line <= number of lines and 1 <= column <= width of that line + 1 under the tab rule, and converting either AST to a descriptor proto (with validation) neither panics nor reports a position outside the file; non-trivial = rejected input that still yields declarations in the AST; distinct by text",
+		Rule: "byte strings obtained from parser-accepted texts (generated, corpus, labelled) by 1-4 mutations: truncation at a random byte, token deletion/duplication/swap/replacement, bit flips, insertion of hostile fragments (unterminated strings and comments, NUL and other control characters - also inside comments that span lines -, invalid UTF-8, stray brackets, bad numeric and escape literals, keywords, odd whitespace and symbols), nesting up to 150 deep; plus purely random byte strings; oracle: no panic, non-nil AST, Parse returns an error <=> an error was reported (with an accept-all and with the default fail-fast reporter, which must agree), every reported position has 1 <= line <= number of lines and 1 <= column <= width of that line + 1 under the tab rule, and converting either AST to a descriptor proto (with validation) neither panics nor reports an error or a warning at a position outside the file; non-trivial = rejected input that still yields declarations in the AST; distinct by text",
 		Gen: func(t *rapid.T) srcCase {
 			if gen.Pct(t, 8, "randombytes") {
 				return srcCase{Name: "f.proto", Text: string(rapid.SliceOfN(rapid.Byte(), 0, 60).Draw(t, "bytes"))}
